@@ -98,6 +98,8 @@ class Run:
         self.rejected = []      # (event, names)
         self.samples = []
         self.notes = []
+        self.drift = 0
+        self.undecided = 0
 
     def cleanup(self):
         if not self.keep:
@@ -200,6 +202,8 @@ class Run:
             self.events += len(lines)
             if len(self.samples) < 3 and lines:
                 self.samples.append(json.loads(lines[len(lines) // 2]))
+            self.drift += len(re.findall(r'<<"DRIFT", \d+>>', out))
+            self.undecided += out.count('"UNDECIDED-HINT"')
             for m in re.finditer(r'<<"VIOL", (\d+), \{([^}]*)\}>>', out):
                 ln = int(m.group(1))
                 names = [s.strip().strip('"') for s in m.group(2).split(",") if s.strip()]
@@ -298,6 +302,8 @@ def write_evidence(run, level, violations, rule, extra=None, assumptions=None, n
         "model_checks": run.mc,
         "drivers": run.drivers,
         "exhaustive": False,
+        "alg_model_drift": run.drift,
+        "undecided_events": run.undecided,
     }
     if extra:
         cov.update(extra)
